@@ -186,7 +186,7 @@ class Ctx:
         def test(case):
             self.begin(case)
             try:
-                r = fn(case, self)
+                r = _verdicts(fn, case, self)
             except Abandon:
                 self.ok(case, False, ('abandoned_known_finding',))
                 return
@@ -215,7 +215,7 @@ class Ctx:
         """Run one explicit case (enumeration / corpus)."""
         self.begin(case)
         try:
-            r = fn(case, self)
+            r = _verdicts(fn, case, self)
         except Abandon:
             self.ok(case, False, ('abandoned_known_finding',))
             return True
@@ -242,6 +242,19 @@ class Ctx:
         }
 
 
+def _verdicts(fn, case, ctx):
+    """Run fn; exceptions that declare themselves oracle verdicts (walker.WalkError: the state of
+    a container breaks the documented layout) become Violations."""
+    try:
+        return fn(case, ctx)
+    except (Violation, Abandon):
+        raise
+    except Exception as e:
+        if getattr(e, 'is_verdict', False):
+            raise Violation('independent walk: %s' % (e,), {'what': 'walk', 'uncaught': True})
+        raise
+
+
 def worker_main(argv):
     # argv: pid shardfile outfile journal tier seed
     pid, shardfile, outfile, journal, tier, seed = argv[:6]
@@ -259,7 +272,7 @@ def worker_main(argv):
             for case in shard['cases']:
                 ctx.begin(case)
                 try:
-                    prop.replay(case, ctx)
+                    _verdicts(lambda c, x: prop.replay(c, x), case, ctx)
                     ctx.ok(case, False, ('corpus_replayed',))
                 except Abandon:
                     ctx.ok(case, False, ('corpus_replayed', 'abandoned_known_finding'))
